@@ -160,6 +160,10 @@ def admissible(spec, scale=None):
     if ok and scale is not None:
         # point-like ("nodal") segments are not curves; the library refuses them in places and subdivides forever in others
         ok = gen.spec_size([spec]) >= 1e-3 * scale
+        if ok and spec[0] == 'A':
+            # an arc whose chord is below 1e-3 of the scale (a sliver of about a degree at radius 5e-4 came up in the thorough tier)
+            # is point-like in the same sense: the library snaps parameters to the end points within an absolute 1e-6
+            ok = abs(X.C(spec[6]) - X.C(spec[1])) >= 1e-3 * scale
     return ok
 
 
@@ -226,6 +230,11 @@ def check_pair(case, ctx):
         try:
             rt = list(a.intersect(b, tol=1e-12))
             ctx.count('explicit_tol')
+        except np.linalg.LinAlgError:
+            # seen once in 100000 cases of a loaded thorough run and not reproducible from the saved case ("Eigenvalues did not
+            # converge" out of numpy.roots): asked again; a second failure is reported
+            ctx.count('transient_linalg_error_retried')
+            rt = ctx.lib('intersect/%s/tol' % pair, lambda: list(a.intersect(b, tol=1e-12)))
         except Exception as e:
             ctx.fail('intersect/%s/tol/raises/%s' % (pair, type(e).__name__), '%s.intersect(tol=1e-12) raised %s: %s' % (pair, type(e).__name__, str(e)[:200]))
     for res, x, y, nm in ((r12, a, b, pair), (r21, b, a, pair[::-1]), (rt, a, b, pair + '/tol')):
